@@ -10,7 +10,7 @@ use midnight_proofs::{
         kzg::{params::ParamsKZG, KZGCommitmentScheme},
         EvaluationDomain, Rotation,
     },
-    utils::arithmetic::{eval_polynomial, g_to_lagrange, kate_division, lagrange_interpolate},
+    utils::arithmetic::{compute_inner_product, eval_polynomial, g_to_lagrange, kate_division, lagrange_interpolate},
 };
 use mzkh::{catch, fe_hex, Ctx};
 use rand::{Rng, RngCore};
@@ -193,6 +193,76 @@ pub fn run_eval_kate_interp(ctx: &mut Ctx) {
                     ctx.oracle_fail(&format!("interp:n{n}"), "lagrange_interpolate does not interpolate",
                         json!({"xs": hexl(&xs), "ys": hexl(&ys)}));
                 }
+            }
+        }
+    }
+}
+
+/// `compute_inner_product` (every length 0..40, a length mismatch), and the constant / checked
+/// constructors of `EvaluationDomain` (`constant_lagrange`, `constant_extended`, `empty_*`,
+/// `lagrange_from_vec`, `coeff_from_vec`, `pinned`).
+pub fn run_inner_const(ctx: &mut Ctx) {
+    let mut rng = ctx.rng("inner");
+    let lens: Vec<usize> = if ctx.quick() { (0..=40).collect() } else { (0..=70).chain([128, 1000]).collect() };
+    for &n in &lens {
+        let a = rand_vec(&mut rng, n, n);
+        let b = rand_vec(&mut rng, n, n + 3);
+        let res = catch(|| compute_inner_product(&a, &b));
+        let ans = match &res {
+            Ok(v) => fe_hex(v),
+            Err(_) => "panic".into(),
+        };
+        ctx.case("inner", n > 1, &format!("inner {} {}", hexl(&a), hexl(&b)), &ans);
+        let naive = a.iter().zip(b.iter()).fold(Fq::ZERO, |acc, (x, y)| acc + *x * *y);
+        if !matches!(&res, Ok(v) if *v == naive) {
+            ctx.oracle_fail(&format!("inner_product:len{n}"), "compute_inner_product is not the sum of the products",
+                json!({"a": hexl(&a), "b": hexl(&b), "got": ans}));
+        }
+    }
+    // the documented panic: different lengths
+    let a = rand_vec(&mut rng, 3, 1);
+    let b = rand_vec(&mut rng, 2, 1);
+    let res = catch(|| compute_inner_product(&a, &b));
+    ctx.case("inner-mismatch", false, &format!("inner {} {}", hexl(&a), hexl(&b)), if res.is_ok() { "value" } else { "panic" });
+
+    let kmax: u32 = if ctx.quick() { 4 } else { 7 };
+    for k in 1..=kmax {
+        for j in [1u32, 2, 3, 5, 9] {
+            let dom = EvaluationDomain::<Fq>::new(j, k);
+            let n = 1usize << k;
+            let c = special_x(&mut rng, (k + j) as usize);
+            let cl = dom.constant_lagrange(c);
+            ctx.case("domconst", true, &format!("domconst lagrange {j} {k} {}", fe_hex(&c)), &hexl(&cl));
+            let ce = dom.constant_extended(c);
+            ctx.case("domconst", true, &format!("domconst extended {j} {k} {}", fe_hex(&c)), &hexl(&ce));
+            ctx.case("domconst", false, &format!("domconst lagrange {j} {k} 0x0"), &hexl(&dom.empty_lagrange()));
+            ctx.case("domconst", false, &format!("domconst extended {j} {k} 0x0"), &hexl(&dom.empty_extended()));
+            // oracle: the constant Lagrange vector is the constant polynomial; `empty_coeff` is zero
+            let coeff = dom.lagrange_to_coeff(cl.clone());
+            let ok = coeff[0] == c && coeff[1..].iter().all(|v| *v == Fq::ZERO)
+                && ce.len() == dom.extended_len() && ce.iter().all(|v| *v == c)
+                && dom.empty_coeff().iter().all(|v| *v == Fq::ZERO) && dom.empty_coeff().len() == n;
+            if !ok {
+                ctx.oracle_fail(&format!("constant_lagrange:k{k}"), "constant_lagrange / constant_extended / empty_coeff are not the constant polynomial",
+                    json!({"j": j, "k": k, "c": fe_hex(&c)}));
+            }
+            // checked constructors: right length accepted unchanged, wrong lengths panic
+            for len in [n, n + 1, n.saturating_sub(1)] {
+                let v = rand_vec(&mut rng, len, len);
+                let r1 = catch(|| dom.lagrange_from_vec(v.clone()).to_vec());
+                let r2 = catch(|| dom.coeff_from_vec(v.clone()).to_vec());
+                ctx.case("domfromvec", len == n, &format!("domfromvec {j} {k} {}", hexl(&v)), &opt_hexl(&r1));
+                if opt_hexl(&r1) != opt_hexl(&r2) {
+                    ctx.oracle_fail("coeff_from_vec:differs", "coeff_from_vec and lagrange_from_vec disagree on the length check", json!({"k": k, "len": len}));
+                }
+            }
+            // `pinned()` (hashed into the verifying key's transcript representation): exactly
+            // (k, extended_k, omega)
+            let pinned = format!("{:?}", dom.pinned());
+            let expect = format!("PinnedEvaluationDomain {{ k: {:?}, extended_k: {:?}, omega: {:?} }}", dom.k(), dom.extended_k(), dom.get_omega());
+            ctx.count("pinned");
+            if pinned != expect {
+                ctx.oracle_fail("pinned:fields", "EvaluationDomain::pinned() is not (k, extended_k, omega)", json!({"got": pinned, "expected": expect}));
             }
         }
     }
